@@ -24,6 +24,7 @@ class SyscallAudit:
         self.depth = 0
         self.records = []  # (function, first argument, innermost cfdppy function, innermost cfdppy file)
         self.calls = 0
+        self.fault_fn = None
         SyscallAudit.install()
 
     def enter(self, rec=None) -> None:
@@ -67,6 +68,8 @@ class SyscallAudit:
         except TypeError:
             a0 = repr(a0)[:40]
         self.records.append((fname, a0, func, file))
+        if self.fault_fn is not None:
+            self.fault_fn(fname)  # may raise an OSError: the access fails before it happens
 
     @classmethod
     def install(cls) -> None:
